@@ -20,6 +20,9 @@ PROP = dict(
         dict(module="MCCredentialsSession", cfg="MCCredentialsSession_mut_stickydefault.cfg", expect_violation="Holds", timeout=300),
         dict(module="MCCredentialsSession", cfg="MCCredentialsSession_mut_redactsent.cfg", expect_violation="Holds", timeout=300),
         dict(module="MCCredentialsSession", cfg="MCCredentialsSession_mut_staticbeforeauth.cfg", expect_violation="Holds", timeout=300),
+        # the default wrapper stored into the caller's operation value: re-submission carries a stale / foreign credential, and the value changed
+        dict(module="MCCredentialsSession", cfg="MCCredentialsSession_mut_authintoop.cfg", expect_violation="Holds", timeout=300),
+        dict(module="MCCredentialsSession", cfg="MCCredentialsSession_mut_authintoop_opchanged.cfg", expect_violation="OperationUnchanged", timeout=300),
     ],
     level_text="Credentials models what the client writers (BasicAuth, APIKeyAuth, BearerToken, Compose, the default-authentication wrapper) put "
                "on the wire and how the server authenticators (BasicAuth*, APIKeyAuth*, BearerAuth*, plain and Ctx) read it back (base64 + cut "
@@ -28,9 +31,10 @@ PROP = dict(
                "carried, principal/error are the callback's, realm / scheme markers). TLC checks code |= property for all users/passwords/"
                "tokens over an 8-class alphabet and all combinations of operation auth, default auth, preset Authorization header and "
                "token placements x static query parameters of the base path / path pattern named like a query key x every authenticator. "
-               "History is a first-class dimension: one Runtime modelled as a state machine (state = its configuration: default credential, "
-               "Debug; memory that must stay empty) makes sequences of requests with the configuration REPLACED in between, each judged "
-               "for the configuration in force when it is made. TLC validates every authenticator run on requests built by the real "
+               "History is a first-class dimension: two Runtimes modelled as state machines (state = their configurations: default credential, "
+               "Debug; memories that must stay empty) make sequences of requests with a configuration REPLACED in between, with fresh "
+               "ClientOperation values or the caller's SAME value submitted again (through either Runtime; it must come back unchanged), "
+               "each judged for the configuration in force of the sending Runtime when it is made. TLC validates every authenticator run on requests built by the real "
                "client (directly and really sent through a httptest.Server, Debug on or off) against the property; the trace spec is "
                "the same state machine driven by configure / request events.",
     level_note="bounded exhaustive at model level; real code bound by trace validation of the executed cases only; base64 is abstract in "
@@ -38,8 +42,8 @@ PROP = dict(
     design_ref="DESIGN.md 4.14",
     driver="c14",
     trace=dict(module="TraceCredentials", cfg="TraceCredentials.cfg"),
-    rule="case = a session of 1-5 steps on one client.Runtime; step = configuration set before the request (DefaultAuthentication, Debug, "
-         "base path with static query parameters) + one request description (operation writers incl. Compose, default writers, preset Authorization/header/query/form "
+    rule="case = a session of 1-7 steps on two client.Runtimes; step = Runtime A|B + configuration set on it before the request "
+         "(DefaultAuthentication, Debug, base path with static query parameters) + fresh or re-submitted ClientOperation value + one request description (operation writers incl. Compose, default writers, preset Authorization/header/query/form "
          "parameters, form media type, transport direct|httptest.Server) with a list of authenticators each run on a fresh copy of the "
          "request; exhaustive part: every user (no ':') x password, key and token of <=2 atoms over {a : space non-ASCII + % = &} per "
          "scheme and placement; all operation-auth sequences of <=2 writers over a 6-writer pool x 4 defaults x 8 preset subsets x "
@@ -47,7 +51,8 @@ PROP = dict(
          "named api_key / k / access_token x 6 operation auths x 3 defaults x params-writer value x transports; Debug on x 6 header-"
          "credential operation auths x 4 defaults x preset header x media x transports; sessions: every ordered pair of 7 defaults "
          "(absent, bearer, refreshed bearer, query key, header key, basic, new password) x 5 requests, Debug / base path switched "
-         "between requests; seeded part: arbitrary-byte credentials, random configuration, 600 (thorough 6000) random sessions. "
+         "between requests; the same operation value submitted twice on one Runtime for every ordered pair of defaults (incl. equal, none) "
+         "and A,B,A over two Runtimes x 5 requests x 3 transport mixes, two kept values interleaved with fresh ones; seeded part: arbitrary-byte credentials, random configuration, 600 (thorough 6000) random sessions. "
          "Non-trivial: some authenticator's callback was consulted; distinct by hash of the case.",
     assumptions=COMMON_ASSUME + [
         "header-borne keys and tokens are transportable header values (no CR/LF/control bytes, no leading or trailing blanks); user names contain no ':'",
